@@ -96,6 +96,87 @@ def _user():
     return _U[0]
 
 
+class CallbackFault(Exception):
+    pass
+
+
+def check_reuse_after_callback_fault(t, m, nodes, live, shape, assign, kind):
+    """One DictExporter object whose user callback (attriter / childiter / dictcls) raises at its k-th invocation, for
+    every k; afterwards the same exporter must export correctly again (deviation-bounded environment faults)."""
+    from anytree.exporter import DictExporter
+
+    for ml in (None, 2):
+        for which in ("attriter", "childiter", "dictcls"):
+            state = {"k": None, "n": 0}
+
+            def tick():
+                i = state["n"]
+                state["n"] += 1
+                if state["k"] is not None and i == state["k"]:
+                    raise CallbackFault("%s call #%d" % (which, i))
+
+            def attriter(items):
+                if which == "attriter":
+                    tick()
+                return list(items)
+
+            def childiter(cs):
+                if which == "childiter":
+                    tick()
+                return list(cs)
+
+            def dictcls(items):
+                if which == "dictcls":
+                    tick()
+                return dict(items)
+
+            exporter = DictExporter(dictcls=dictcls, attriter=attriter, childiter=childiter, maxlevel=ml)
+            exp = ref_export(m, live, 0, 1, ml, lambda it: list(it), lambda cs: list(cs), dict)
+            state["k"], state["n"] = None, 0
+            first = exporter.export(nodes[0])
+            calls = state["n"]
+            if first != exp:
+                return  # reported by the main comparison
+            for k in range(calls):
+                state["k"], state["n"] = k, 0
+                try:
+                    exporter.export(nodes[0])
+                    raised = False
+                except CallbackFault:
+                    raised = True
+                state["k"], state["n"] = None, 0
+                got = exporter.export(nodes[0])
+                t.c["evaluations"] += 1
+                t.c["exports_after_callback_fault"] += 1
+                why = None
+                if not raised:
+                    why = "exception raised by the user %s callback was swallowed" % which
+                elif got != exp:
+                    why = "export by the same exporter object after a %s callback raised (call #%d) differs" % (which, k)
+                if why:
+                    t.violation("C10: " + why, {"engine": "E2", "module": MOD, "shape": shape, "assign": list(assign), "kind": kind,
+                                                "history": "callback-fault", "callback": which, "call": k, "maxlevel": ml,
+                                                "expected": exp, "observed": got})
+                    return
+
+
+_C = []
+
+
+def _container():
+    """A user node class that is a container of its children: empty (falsy) while it has none."""
+    if not _C:
+        class Container(_user()):
+            def __len__(self):
+                return len(self.children)
+
+            def __iter__(self):
+                return iter(self.children)
+
+        _C.append(Container)
+    return _C[0]
+
+
 def tree_snapshot(nodes, idm):
     return (tree.read_structure(nodes, idm), [copy.deepcopy({k: v for k, v in vars(nd).items() if k not in BOOK}) for nd in nodes])
 
@@ -163,15 +244,17 @@ def check_tree(t, shape, assign, kinds=("anynode", "node", "user"), only=None):
             t.violation("C10: export modified the tree", {"engine": "E2", "module": MOD, "shape": shape, "assign": list(assign), "kind": kind})
         if only:
             continue
+        if m.n >= 2 and sum(assign) % 3 == 0:
+            check_reuse_after_callback_fault(t, m, nodes, live, shape, assign, kind)
         # import side -----------------------------------------------------------------------
         d = DictExporter().export(nodes[0])
         for variant, dd in (("exported", d), ("with empty children lists", add_empty_children(d))):
-            for nodecls_name in ("anynode", "node", "user"):
+            for nodecls_name in ("anynode", "node", "user", "container"):
                 if nodecls_name == "node" and kind != "node":
                     continue  # Node needs a name in every dictionary
                 import anytree
 
-                nodecls = {"anynode": anytree.AnyNode, "node": anytree.Node, "user": _user()}[nodecls_name]
+                nodecls = {"anynode": anytree.AnyNode, "node": anytree.Node, "user": _user(), "container": _container()}[nodecls_name]
                 before = copy.deepcopy(dd)
                 root = DictImporter(nodecls=nodecls).import_(dd)
                 t.c["evaluations"] += 1
@@ -244,9 +327,10 @@ def run(tier):
                 "None/list/dict/shared object, key 'name', private key) per node (10 rotations per shape above %d nodes) x 3 "
                 "node classes x start x maxlevel {None,0,1..height+1} x 5 attriters x 3 childiters x {dict, OrderedDict}: "
                 "export vs. reference serialisation incl. mapping type and key order at every level; import of the exported "
-                "dictionary (also with explicit empty children lists) into AnyNode/Node/user class, both round trips, "
+                "dictionary (also with explicit empty children lists) into AnyNode/Node/user class/container-like falsy user class, both "
+                "round trips; one exporter object re-used after its attriter/childiter/dictcls callback raised at every call position; "
                 "arguments unmodified; non-trivial = exported subtree has more than one node" % (npart, nfull),
         "bounds": {"full_assignments_upto": nfull, "max_nodes": npart, "trees": len(items)},
     }
-    return {"tally": t, "coverage": cov, "guards": ("nontrivial", "maxlevel_cuts", "imports"),
+    return {"tally": t, "coverage": cov, "guards": ("nontrivial", "maxlevel_cuts", "imports", "exports_after_callback_fault"),
             "assumptions": ["attribute values from a 5-element domain; node classes with an instance __dict__"]}
